@@ -233,8 +233,11 @@ def case_set_st(draw):
         flavour = draw(st.sampled_from(["text", "text", "numeric"]))
         miss = {"id": -1, "name": "", "missing": True, "value": None, "evalue": {"?": -1}}
         if flavour == "text":
-            # text: ids are positions, the missing element comes last
-            cats = [{"id": i, "name": None, "missing": False, "value": None, "evalue": "t%d" % i}
+            # text: ids are positions, the missing element comes last; an answer may be the
+            # empty string
+            blank = draw(st.integers(0, 3)) == 0
+            cats = [{"id": i, "name": None, "missing": False, "value": None,
+                     "evalue": "" if (blank and i == 0) else "t%d" % i}
                     for i in range(nv)] + [miss]
         else:
             # binned numeric (zz9): bins numbered 1..n, the missing element comes FIRST
